@@ -22,6 +22,9 @@ OBJECT_CLS = ExtClass("object")
 ABC_CLS = ExtClass("ABC")
 ENUM_CLS = ExtClass("Enum")
 TFMODE_CLS = ExtClass("TorchFunctionMode")
+LINEAR_CLS = ExtClass("Linear", bases=[MODULE_CLS])
+CONV2D_CLS = ExtClass("Conv2d", bases=[MODULE_CLS])
+LAYERNORM_CLS = ExtClass("LayerNorm", bases=[MODULE_CLS])
 
 
 def raise_(E, name, msg="", node=None):
@@ -91,6 +94,9 @@ def install(E):
     torch.entries["nn"] = nn
     nn.entries["Module"] = MODULE_CLS
     nn.entries["Parameter"] = PARAMETER_CLS
+    nn.entries["Linear"] = LINEAR_CLS
+    nn.entries["Conv2d"] = CONV2D_CLS
+    nn.entries["LayerNorm"] = LAYERNORM_CLS
     nn.entries["functional"] = Namespace("torch.nn.functional")
     nn.entries["modules"] = Namespace("torch.nn.modules")
     # torch.library
@@ -110,6 +116,9 @@ def install(E):
     torch.entries["finfo"] = Builtin("finfo", lambda E, d: Info(d))
     torch.entries["cuda"] = Namespace("torch.cuda")
 
+    from . import nnmodel
+
+    nnmodel.install(E)
     # other python modules
     numbers = Namespace("numbers")
     E.ext_modules["numbers"] = numbers
@@ -261,7 +270,7 @@ def inspect_signature(E, fn):
     if not isinstance(clo, Closure):
         raise Unsupported("inspect.signature of non-closure")
 
-    class P:
+    class P(PyNative):
         POSITIONAL_ONLY = 0
 
         def __init__(self, name, kind):
